@@ -159,6 +159,7 @@ func (c *Coordinator) worker(id int) {
 				solvers = c.cfg.ArithSolver
 			}
 			e = NewEngine(c.ld.Prog, c.ld.Pkg, c.cfg, solvers)
+			e.noRetMerge = spec.Arith
 			engines[spec.Arith] = e
 		}
 		e.stats = newHarnessStats(spec.Name)
